@@ -23,6 +23,14 @@
          <bip34> <bip65> <bip66> <csv> <segwit> <taproot> <tx>*
                                              -> <code> <flags> | panic
       tx = txid,wtxid,lock,nowit,size,ins,in0script,outs,segwit,values   (see parseTx)
+    idx <key> <node idx>                     -> ok        (ch.BlockIndex[key] = node; key = first 8 hash bytes, LE number)
+    unidx <key>                              -> ok        (delete(ch.BlockIndex, key))
+    last <node idx>                          -> ok        (ch.SetLast)
+    cb <rawLen> <ver> <hash32> <hashKey> <parentKey> <bits> <time> <now> <testnet> <testnet4> <maxbits> <maxvalue>
+       <bip34> <bip65> <bip66> <csv> <segwit> <taproot> <preParsed> <buildOk> <trusted> <merkleroot> <tx>*
+                                             -> <dos> <maybelater> <code> <bl.Height> <bl.MedianPastTime> <bl.VerifyFlags> <len(bl.Txs)|nil>
+                                                <#nodes> <len(BlockIndex)> <last>      | panic
+       (Chain.CheckBlock with its effects: `BlockCheck.checkBlockM` on the chain state held here)
 -/
 import GocoinV.Model.BlockCheck
 import GocoinV.Base.Sha256
@@ -31,16 +39,12 @@ open GocoinV GocoinV.Target GocoinV.Retarget GocoinV.BlockCheck
 
 structure St where
   nodes : Array (Node × Int) := #[]
+  index : List (Nat × Nat) := []
+  last : Nat := 0
 
-def chainOf (s : St) : Nat → Int → List Node
-  | 0, _ => []
-  | fuel+1, idx =>
-    if idx < 0 then [] else
-    match s.nodes[idx.toNat]? with
-    | none => []
-    | some (n, p) => n :: chainOf s fuel p
+def St.chain (s : St) (idx : Int) : List Node := chainOf s.nodes (s.nodes.size + 1) idx
 
-def St.chain (s : St) (idx : Int) : List Node := chainOf s (s.nodes.size + 1) idx
+def St.cs (s : St) : ChainSt Unit := { nodes := s.nodes, index := s.index, last := s.last, unspent := () }
 
 def b01 (s : String) : Option Bool := if s == "1" then some true else if s == "0" then some false else none
 
@@ -124,7 +128,7 @@ def step (s : St) (toks : List String) : St × String :=
     match p.toInt?, h.toNat?, t.toNat?, b.toNat? with
     | some p, some h, some t, some b =>
       if p ≥ (s.nodes.size : Int) then bad
-      else ({ nodes := s.nodes.push ({ height := h, ts := t, bits := b }, p) }, s!"{s.nodes.size}")
+      else ({ s with nodes := s.nodes.push ({ height := h, ts := t, bits := b }, p) }, s!"{s.nodes.size}")
     | _, _, _, _ => bad
   | ["gnwr", idx, ts, tn, tn4, mb, mv] => reply do
       let idx ← idx.toInt?
@@ -182,6 +186,35 @@ def step (s : St) (toks : List String) : St × String :=
       match postCheckBlock sha256d cons i with
       | none => pure "panic"
       | some (e, f) => pure s!"{e.code} {f}"
+  | ["idx", k, i] =>
+    match k.toNat?, i.toNat? with
+    | some k, some i => if i < s.nodes.size then ({ s with index := (k, i) :: s.index.filter (·.1 != k) }, "ok") else bad
+    | _, _ => bad
+  | ["unidx", k] =>
+    match k.toNat? with
+    | some k => ({ s with index := s.index.filter (·.1 != k) }, "ok")
+    | none => bad
+  | ["last", i] =>
+    match i.toNat? with
+    | some i => if i < s.nodes.size then ({ s with last := i }, "ok") else bad
+    | none => bad
+  | "cb" :: rawLen :: ver :: hash :: hkey :: pkey :: bits :: time :: now :: tn :: tn4 :: mb :: mv :: b34 :: b65 :: b66 :: csv :: sw :: tap ::
+      pp :: bo :: tr :: root :: txs => reply do
+      let hash ← Hex.decode hash
+      if hash.length ≠ 32 then none
+      let p : Params := { maxPowBits := ← mb.toNat?, maxPowValue := ← mv.toInt?, testnet := ← b01 tn, testnet4 := ← b01 tn4 }
+      let cons ← parseCons b34 b65 b66 csv sw tap
+      let txs ← txs.mapM parseTx
+      let pp ← b01 pp
+      let bl : BlockObj := { rawLen := ← rawLen.toNat?, ver := ← ver.toNat?, hash := leVal hash, hashKey := ← hkey.toNat?,
+                             parentKey := ← pkey.toNat?, bits := ← bits.toNat?, time := ← time.toNat?, merkleRoot := ← Hex.decode root,
+                             trusted := ← b01 tr, build := txs, buildOk := ← b01 bo, height := 0, mtp := 0,
+                             txs := if pp then some txs else none, verifyFlags := 0 }
+      match checkBlockM p cons sha256d (← now.toInt?) s.cs bl with
+      | none => pure "panic"
+      | some (cs, bl, r) =>
+        let ntx := match bl.txs with | none => "nil" | some l => toString l.length
+        pure s!"{Proto.boolStr r.dos} {Proto.boolStr r.maybelater} {r.code} {bl.height} {bl.mtp} {bl.verifyFlags} {ntx} {cs.nodes.size} {cs.index.length} {cs.last}"
   | _ => bad
 
 def main : IO Unit := Proto.serve ({} : St) step
